@@ -249,6 +249,8 @@ pub fn finish(
             json!("none: jaq has no timers, deadlines or sleeps; logical time = operation index"),
         );
         o.insert("workers".into(), json!(cfg.workers));
+        o.insert("seeds".into(), json!(1));
+        o.insert("seeds_per_hour".into(), json!((3600.0 / wall.max(1e-6)) as u64));
         o.insert(
             "known_findings_matched".into(),
             json!(known_printed.iter().collect::<Vec<_>>()),
